@@ -89,11 +89,18 @@ def run(ctx: Ctx):
                     ctl.observe()
                     if e["res"] == "ok":
                         finish_replication(ctl)
+                reg_before = [(k, id(v)) for k, v in ctl.model.output_statistics().items()]
                 fresh = dd.SimCtl(conc, end_t, warm_t, strat, prog=dict(ctl.prog), init_ops=ctl.init_ops, model_factory=ds.StatModel)
                 if not ctl.errors:
                     fresh.initialize()
                     fresh.observe()
                     finish_replication(fresh)
+                    # another model instance on another simulator is another experiment: the first model still reports ITS statistics
+                    reg_after = [(k, id(v)) for k, v in ctl.model.output_statistics().items()]
+                    other = {id(v) for v in fresh.model.output_statistics().values()}
+                    if reg_after != reg_before or (other & {i for _, i in reg_after}):
+                        ctl.errors.append(f"registry_shared: the statistics the first model reports changed ({len(reg_before)} -> {len(reg_after)} entries, "
+                                          f"{len(other & {i for _, i in reg_after})} shared with the other model) when a second model instance was initialised and run on another simulator")
         finally:
             ctl.dispose()
             if fresh:
